@@ -8,7 +8,7 @@
 From Coq Require Import String ZArith List Bool Lia Arith.
 Import ListNotations.
 Set Warnings "-abstract-large-number".
-From SqfVerif Require Import Gen.DiagCodes Gen.Consts VM.VmDefs VM.VmExec VM.SchedDefs VM.SchedOps VM.SchedBase VM.SchedIter VM.SchedEquiv VM.C12Defs VM.C12Proofs VM.C12FrameOps VM.C12Frame VM.C12Commute.
+From SqfVerif Require Import Gen.DiagCodes Gen.Consts VM.VmDefs VM.VmExec VM.SchedDefs VM.SchedOps VM.SchedBase VM.SchedIter VM.SchedEquiv VM.C12Defs VM.C12Proofs VM.C12FrameOps VM.C12Frame VM.C12Commute VM.C12NsEq VM.C12Globals VM.C12GlobalsCommute.
 Local Open Scope list_scope.
 
 (* the instrumented scheduler (switches off) is the shared one *)
@@ -191,9 +191,10 @@ Print Assumptions C12_other_scripts_untouched_partial.
    then i after j does exactly what i does alone (same result, same visit record: instructions executed, restarts) and j after
    i does what j does alone, and the two final machines are equal in every field except r_active (the script that ran last)
    and the log, which holds i's lines and j's lines in the one or the other order (shared_state m1 = shared_state m2).
-   MISSING for the full statement: (1) turns that CREATE a global (the model's namespaces are association lists, the position
-   of a new entry depends on the order of creation - the final machines are then equal only up to the order of entries, which
-   is not proved); (2) turns that spawn (the children's position in the scheduler's list and their ids depend on the order:
+   MISSING for the full statement: (1) turns that CREATE a global are outside THIS theorem (the model's namespaces are association
+   lists, the position of a new entry depends on the order of creation) - they are covered, up to the order of entries, by
+   C12_independent_turns_commute_creating_partial / C12_round_order_irrelevant_creating_partial below; (2) turns that spawn (the
+   children's position in the scheduler's list and their ids depend on the order:
    refuted as stated: C12_spawning_turns_commute_refuted); (3) a clock that advances during the turns (wake-up times of sleeping scripts
    then depend on the order); (4) C12_round_order_irrelevant_partial lifts the statement to any number of turns in any order, as a sequence of
    scheduler turns (visit_ctx); the pass loop start_pass2 additionally erases finished contexts, which shifts the indices of the
@@ -288,6 +289,111 @@ Example ex_hypotheses_hold :
   r_out (snd (fst (ex_turn 0))) <> [] /\ r_out (snd (fst (ex_turn 1))) <> [] /\
   r_nss (snd (fst (ex_turn 0))) <> r_nss ex_machine /\ r_nss (snd (fst (ex_turn 1))) <> r_nss ex_machine.
 Proof. exact ex_independent_turns. Qed.
+
+(* ------------------------------------------------------------------ independent turns commute: turns that CREATE globals *)
+(* The model keeps the namespaces as association lists: a global that does not exist yet is appended, so the position of an
+   entry records the order of creation - an artefact of the model (the implementation's map has no such order, and no modelled
+   operator enumerates a namespace: r_nss is read by ns_get and written by ns_set only). nss_eq identifies two namespace lists that
+   are the same finite map: every (namespace, variable) has the same value or is undefined in both, and the same namespaces are
+   defined; req is nss_eq on r_nss and equality on every other field of the machine. *)
+
+(* nss_eq / req are equivalence relations, an assignment respects nss_eq ... *)
+Theorem C12_req_is_equivalence :
+  (forall r, req r r) /\ (forall r r', req r r' -> req r' r) /\ (forall a b c, req a b -> req b c -> req a c) /\
+  (forall a b ns n v, nss_eq a b -> nss_eq (raw_set a ns n v) (raw_set b ns n v)).
+Proof. exact (conj req_refl (conj req_sym (conj req_trans nss_eq_set))). Qed.
+Print Assumptions C12_req_is_equivalence.
+
+(* ... and the order of the entries is the only freedom it leaves: association lists without repeated keys (all that assoc_set builds
+   from the empty list) with the same lookups are permutations of each other *)
+Theorem C12_same_lookups_is_reordering : forall (l l':list (string * value)),
+  NoDup (map fst l) -> NoDup (map fst l') -> (forall k, assoc k l = assoc k l') -> Permutation.Permutation l l'.
+Proof. exact (@same_lookups_permutation value). Qed.
+Print Assumptions C12_same_lookups_is_reordering.
+
+(* (1) req is a congruence for a scheduler turn: equivalent machines take equivalent turns - the same result, the same visit record
+   (instructions executed, restarts), and machines afterwards that are again equal in every field (contexts, log, clock, error
+   state, ids) except the order of namespace entries. The turn may read, assign and CREATE any globals: R and W only have to list
+   them (any lists with visit_ok .. = true).
+   FULL STATEMENT: the same without the hypothesis visit_ok. MISSING: visit_ok also excludes turns that execute spawn, terminate or
+   scriptDone; these operators do not touch the namespaces, but the exact frame lemmas of C12Frame.v that the proof reuses for
+   everything that does not touch a global are stated without them. *)
+Theorem C12_equivalent_machines_take_equivalent_turns_partial : forall b1 b2 R W r r' i x r1 v,
+  req r r' -> i < length (r_ctxs r) -> visit_ok b1 R W r i = true ->
+  visit_ctx b1 b2 r i = Ok (x, r1, v) ->
+  exists r1', visit_ctx b1 b2 r' i = Ok (x, r1', v) /\ req r1 r1'.
+Proof. exact req_turn_congruence. Qed.
+Print Assumptions C12_equivalent_machines_take_equivalent_turns_partial.
+
+(* the frame property up to the order of entries: a change G of the namespaces that the script cannot observe (sem_ok G R W: globals
+   of R read the same after G, an assignment to a global of W commutes with G up to nss_eq - it may CREATE the global -, G respects
+   nss_eq) commutes with the whole turn: from r with namespaces a' ~ G (r_nss r) the turn returns the same result and visit record
+   as from r, and the machine it returns from r with its namespaces replaced by some a1 ~ G (the namespaces it leaves from r)
+   (rres_v; cst a = "replace the namespaces by a"). The replayed writes of another script (wr Wj ..) are such a G when Wj is disjoint
+   from R and W (sem_ok_wr). *)
+Theorem C12_frame_turn_up_to_order : forall G R W i b1 b2 r a',
+  sem_ok G R W -> relN G r a' -> i < length (r_ctxs r) -> visit_ok b1 R W r i = true ->
+  rres_v G (visit_ctx b1 b2 (app (cst a') r) i) (visit_ctx b1 b2 r i).
+Proof. exact turn_up_to_order. Qed.
+Print Assumptions C12_frame_turn_up_to_order.
+
+(* (2) two turns of different scripts with independent footprints commute up to req - each may CREATE globals (of its own W).
+   solo_turn_c is solo_turn with nss_effect_c in place of nss_effect: up to the order of entries, the namespaces after the turn
+   taken alone are those before it with the turn's final values written at the keys of W (wr: overwritten where the variable
+   exists, created where it does not). Conclusion as in C12_independent_turns_commute_partial with req (shared_state m1)
+   (shared_state m2) in place of equality: i after j does exactly what i does alone, j after i what j does alone, the final machines
+   are equal in every field except r_active, the order of the two scripts' log lines and the ORDER of the namespace entries.
+   Still MISSING for the full isolation clause: spawn (refuted as stated: C12_spawning_turns_commute_refuted - the children's places in the
+   scheduler's list and their ids follow the order of the parents' turns; a statement up to a renaming of script ids and a permutation
+   of the scheduler's list behind the two scripts is not attempted), a clock that advances during the turns, the erase bookkeeping
+   of start_pass2. *)
+Theorem C12_independent_turns_commute_creating_partial : forall b1 b2 r i j Ri Wi Rj Wj xi ri vi xj rj vj,
+  i <> j -> r_out r = [] -> r_tick r = 0%Z ->
+  solo_turn_c b1 b2 r i Ri Wi xi ri vi -> solo_turn_c b1 b2 r j Rj Wj xj rj vj ->
+  independent Ri Wi Rj Wj = true ->
+  exists m1 m2,
+    visit_ctx b1 b2 rj i = Ok (xi, m1, vi) /\
+    visit_ctx b1 b2 ri j = Ok (xj, m2, vj) /\
+    req (shared_state m1) (shared_state m2) /\
+    r_out m1 = r_out ri ++ r_out rj /\ r_out m2 = r_out rj ++ r_out ri.
+Proof. exact independent_turns_commute_c. Qed.
+Print Assumptions C12_independent_turns_commute_creating_partial.
+
+(* whole rounds: any number of pairwise independent turns, each a solo_turn_c from r (each may create globals), can be taken in ANY
+   order: every order runs through, every script does in it exactly what it does alone, the final machines agree up to req on
+   everything but the order of the log lines and r_active *)
+Theorem C12_round_order_irrelevant_creating_partial : forall b1 b2 r us us',
+  r_out r = [] -> r_tick r = 0%Z ->
+  Forall (solo_c b1 b2 r) us -> all_independent us -> Permutation.Permutation us us' ->
+  exists m m', runs b1 b2 r us m /\ runs b1 b2 r us' m' /\ req (shared_state m) (shared_state m').
+Proof. exact round_order_irrelevant_c. Qed.
+Print Assumptions C12_round_order_irrelevant_creating_partial.
+
+(* non-vacuity: two spawned scripts `ga = 1; diag_log ga` and `gb = 2; diag_log gb` on a machine WITHOUT any global (cr_machine):
+   each creates its variable; the hypotheses hold (cr_solo_a, cr_solo_b, cr_facts), and the two orders end with namespaces that
+   differ in the order of their entries ([ga; gb] against [gb; ga]) - the equality of C12_independent_turns_commute_partial fails
+   for this pair, req holds *)
+Example ex_commute_creating :
+  exists m1 m2,
+    visit_ctx false false (snd (fst (cr_turn 1))) 0 = Ok (fst (fst (cr_turn 0)), m1, snd (cr_turn 0)) /\
+    visit_ctx false false (snd (fst (cr_turn 0))) 1 = Ok (fst (fst (cr_turn 1)), m2, snd (cr_turn 1)) /\
+    req (shared_state m1) (shared_state m2) /\
+    r_out m1 = r_out (snd (fst (cr_turn 0))) ++ r_out (snd (fst (cr_turn 1))) /\
+    r_out m2 = r_out (snd (fst (cr_turn 1))) ++ r_out (snd (fst (cr_turn 0))).
+Proof.
+  apply (independent_turns_commute_c false false cr_machine 0 1 ex_Ka ex_Ka ex_Kb ex_Kb);
+    [discriminate | reflexivity | reflexivity | exact cr_solo_a | exact cr_solo_b | reflexivity].
+Qed.
+Example ex_creating_hypotheses_hold :
+  independent ex_Ka ex_Ka ex_Kb ex_Kb = true /\ r_out cr_machine = [] /\ r_tick cr_machine = 0%Z /\ r_nss cr_machine = [] /\
+  r_out (snd (fst (cr_turn 0))) <> [] /\ r_out (snd (fst (cr_turn 1))) <> [] /\
+  r_nss (snd (fst (cr_turn 0))) = [(default_ns, [("ga"%string, VNum 1)])] /\
+  r_nss (snd (fst (cr_turn 1))) = [(default_ns, [("gb"%string, VNum 2)])] /\
+  cr_both 0 1 = [(default_ns, [("ga"%string, VNum 1); ("gb"%string, VNum 2)])] /\
+  cr_both 1 0 = [(default_ns, [("gb"%string, VNum 2); ("ga"%string, VNum 1)])].
+Proof. exact cr_facts. Qed.
+Example ex_creating_round_hypotheses : Forall (solo_c false false cr_machine) [cr_ta; cr_tb] /\ all_independent [cr_ta; cr_tb].
+Proof. exact cr_round. Qed.
 
 (* ------------------------------------------------------------------ non-vacuity *)
 (* three spawned scripts of 2, 5 and 3 statements under a slice of 4 instructions: the passes of the model *)
